@@ -316,14 +316,17 @@ def outside (rest : List File) (lo hi : Bytes × Nat) : Bool :=
 /-- what makes a table compaction safe (evaluated on every compaction the real worker performs):
 * level in range, inputs exist and are distinct, at least one level-`L` input; the smallest
   snapshot is not above the last published sequence number;
-* level 0: no remaining level-0 file overlaps the user-key hull of the level-0 inputs;
-* level ≥ 1: the remaining files of level `L` lie outside the inputs' internal-key span and none
-  of them starts with the user key the inputs end with (boundary files);
+* level 0: a remaining level-0 file overlaps the user-key hull of the level-0 inputs only if its
+  number is larger than every input's (it was flushed while the compaction ran);
+* level ≥ 1: every remaining file of level `L` lies entirely before or entirely after each input,
+  and one that lies after an input does not start with the user key that input ends with
+  (boundary files);
 * the remaining files of level `L+1` lie outside the internal-key span of ALL inputs, do not
   overlap the user-key hull of the level-`L` inputs, and none of them starts with the user key
   the inputs end with (needed when a tombstone is dropped);
 * the outputs are a cut, into non-empty runs, of the merged inputs after the drop rule, with
-  fresh file numbers. -/
+  file numbers used by no other file (they were allocated when the output was opened, so a
+  memtable flushed meanwhile may carry a larger number). -/
 def validCompaction (s : State) (c : Compaction) : Bool :=
   let lv := s.levels.getD c.level []
   let lp := s.levels.getD (c.level + 1) []
@@ -336,18 +339,26 @@ def validCompaction (s : State) (c : Compaction) : Bool :=
   decide (c.level + 1 < 7) && !i0.isEmpty && decide (c.smallestSnapshot ≤ s.lastSeq) &&
   decide (i0.length = c.inputs0.length) && decide (i1.length = c.inputs1.length) &&
   distinctNums c.inputs0 && distinctNums c.inputs1 &&
-  (match hull i0, minKey i0, maxKey i0, minKey (i0 ++ i1), maxKey (i0 ++ i1) with
-   | some (lo, hi), some lo0, some hi0, some loAll, some hiAll =>
-     (if c.level = 0 then r0.all fun g => !userRangeOverlaps g lo hi
-      else outside r0 lo0 hi0 && r0.all fun g => !(g.smallest.1 == hi0.1)) &&
+  (match hull i0, minKey (i0 ++ i1), maxKey (i0 ++ i1) with
+   | some (lo, hi), some loAll, some hiAll =>
+     (if c.level = 0 then
+        -- a remaining level-0 file may overlap the inputs only if it is newer than all of them
+        -- (a memtable flushed while the compaction was running)
+        r0.all fun g => !userRangeOverlaps g lo hi || i0.all fun f => decide (f.num < g.num)
+      else
+        -- level ≥ 1: a remaining file lies entirely before an input (then it holds the newer
+        -- versions), or entirely after it without sharing the boundary user key; it may sit in a gap
+        -- between two inputs (a memtable flushed to this level while the compaction ran)
+        r0.all fun g => i0.all fun f =>
+          kLt g.largest f.smallest || (kLt f.largest g.smallest && !(g.smallest.1 == f.largest.1))) &&
      outside r1 loAll hiAll &&
      (r1.all fun g => !userRangeOverlaps g lo hi) &&
      (r1.all fun g => !(g.smallest.1 == hiAll.1))
-   | _, _, _, _, _ => false) &&
+   | _, _, _ => false) &&
   c.outputs.all (fun o => !o.2.isEmpty) &&
   decide ((c.outputs.map Prod.snd).flatten = kept) &&
   distinctNums (c.outputs.map Prod.fst) &&
-  c.outputs.all (fun o => s.levels.flatten.all fun g => decide (g.num < o.1))
+  c.outputs.all (fun o => !(s.levels.flatten.map File.num).contains o.1)
 
 def removeNums (levels : List (List File)) (lvl : Nat) (nums : List Nat) : List (List File) :=
   setLevel levels lvl (unpick (levels.getD lvl []) nums)
